@@ -270,8 +270,7 @@ func runC11Case(cfg Cfg, base []Op, healthy *vfs.FS, model *Model, uuids []strin
 	}
 	x := vrt.Run(vrt.Config{Sequential: true, MaxTicks: 100}, func() {
 		vfs.Cur = fsys
-		sod.LowercaseNames = cfg.Lower
-		vrt.MapReverse = cfg.MapRev
+		setGlobals(cfg)
 		db := sod.Open(dbRoot)
 		_, err := db.Schema(&Rec{})
 		if cs.NoSchema {
@@ -376,7 +375,7 @@ func runC11Partial(cfg Cfg, base []Op, healthy *vfs.FS, uuid, where string) []Vi
 	fsys.Put(dir+"/schema.json", ns)
 	x := vrt.Run(vrt.Config{Sequential: true, MaxTicks: 100}, func() {
 		vfs.Cur = fsys
-		sod.LowercaseNames = cfg.Lower
+		setGlobals(cfg)
 		db := sod.Open(dbRoot)
 		_, lerr := db.Schema(&Rec{})
 		cerr := db.Control()
